@@ -19,11 +19,11 @@ func init() {
 		Cases: func(tier string) int {
 			switch tier {
 			case "thorough":
-				return 100000
+				return 400000
 			case "race":
 				return 1500
 			}
-			return 15000
+			return 40000
 		},
 		Run:            c16Run,
 		Floor:          func(tier string) int { return 800 },
